@@ -56,6 +56,7 @@ ASSUMPTIONS = [
     "the write is one effect: open(...,'wb') followed by write() is not atomic in the OS; a crash between the two is not modelled here (its consequence, a truncated file, is C11's subject)",
     "parsing of KSR / previous SKR is outside the ceremony model: parse outcomes are inputs (C12/C13)",
     "the token emulator stands in for a PKCS#11 device",
+    "the property demands an unsuccessful run for every fault at a SIGNING call (error return, corrupted / truncated / wrong-key / wrong-hash signature); an error return at another token operation while the key is also present elsewhere is judged by 'only the fault-free SKR may result' and by the model (which propagates search / attribute-read errors as the unchanged code does) — a behaviour change there is reported as a model/implementation disagreement",
     "an error return of C_OpenSession / C_Login on one slot is not counted among the faults that must end the run: the code documents that such a slot is skipped ('not an error if one or more slots succeeded') and the model follows it; with the KSK also present in another slot the ceremony then completes with the fault-free SKR (counted in stats as session-setup-error:…)",
     "an object search that wrongly answers 'nothing here' (fault kind missing) cannot be told from a slot that does not hold the key: with a second copy elsewhere the search legitimately goes on; only the fault-free SKR may result",
 ]
@@ -250,7 +251,13 @@ class Judge:
 
 
 def fault_must_fail(op: str, kind: str) -> bool:
-    return kind in MUST_FAIL_KINDS and op not in SESSION_SETUP_OPS
+    """What the PROPERTY demands: "every requested signature came back from the token and verified in software" — so any
+    fault at a signing call must end the run unsuccessfully.  An error return elsewhere (session set-up, object search,
+    attribute read) with the key ALSO present in another slot / module is not excluded by the statement as long as every
+    gate holds and exactly the fault-free SKR results; there the run is judged by that oracle and by the model (which
+    propagates the error as the unchanged code does), so a change of behaviour shows up as a model/implementation
+    disagreement rather than as a property violation.  (Unreadable public parts are C04's subject.)"""
+    return kind in MUST_FAIL_KINDS and op == "sign"
 
 
 def enumerate_faults(j: Judge, r: Any, work: Path, scen: S.Scenario, ref: dict[str, Any], prev: bytes | None, bl: bytes | None, positions: list[int], case0: dict[str, Any]) -> None:
